@@ -167,6 +167,122 @@ where
     (s, st)
 }
 
+
+/// One prover instance driven through a history of operations (engine E2 on the prover object):
+/// `Prove(n)` = build_layers + build_proof for degree bound n - 1, `Abandon(n)` = build_layers
+/// followed by reset(). Every proof of a history must be byte-identical to the proof a fresh
+/// prover builds for the same input (differential oracle: state reached from the initial state
+/// versus from elsewhere) and must verify.
+#[derive(Clone, Copy, Debug, PartialEq)]
+enum HOp {
+    Prove(usize),
+    Abandon(usize),
+}
+
+fn history_record(cfg: &Cfg, h: &[HOp]) -> Value {
+    let ops: Vec<Value> = h.iter().map(|o| match o { HOp::Prove(n) => json!({"prove": n}), HOp::Abandon(n) => json!({"abandon": n}) }).collect();
+    json!({"kind": "c08-history", "cfg": cfg.to_json(), "history": ops})
+}
+
+fn run_history<B, E, H>(cfg: &Cfg, h: &[HOp]) -> Sweep
+where
+    B: StarkField,
+    E: FieldElement<BaseField = B>,
+    H: ElementHasher<BaseField = B>,
+{
+    use winter_crypto::{DefaultRandomCoin, MerkleTree};
+    use winter_fri::{DefaultProverChannel, FriProver};
+    let mut s = Sweep::new();
+    s.evals += 1;
+    s.nontrivial += 1;
+    let key = format!("{}/history={h:?}", cfg.key());
+    let rp = history_record(cfg, h);
+    let inputs = |n: usize| -> (Cfg, Vec<E>, Vec<usize>) {
+        let c = Cfg { n, ..*cfg };
+        let sh = c.shape().expect("only valid sizes are scheduled");
+        let coeffs: Vec<E> = Poly::Counter(n).coefficients();
+        let (evals, _) = evaluate::<B, E>(&coeffs, sh.domain);
+        let mut pos = vec![0, sh.domain - 1, sh.domain / 2, 1];
+        pos.dedup();
+        (c, evals, pos)
+    };
+    let outcome = mck::catch(|| {
+        let mut out: Vec<(usize, Vec<u8>, Vec<H::Digest>)> = vec![];
+        let mut prover = FriProver::<E, DefaultProverChannel<E, H, DefaultRandomCoin<H>>, H, MerkleTree<H>>::new(options(cfg));
+        for (i, op) in h.iter().enumerate() {
+            let n = match op { HOp::Prove(n) | HOp::Abandon(n) => *n };
+            let (_, evals, pos) = inputs(n);
+            let mut channel = DefaultProverChannel::<E, H, DefaultRandomCoin<H>>::new(evals.len(), pos.len());
+            prover.build_layers(&mut channel, evals);
+            match op {
+                HOp::Abandon(_) => prover.reset(),
+                HOp::Prove(_) => {
+                    let proof = prover.build_proof(&pos);
+                    out.push((i, proof_to_bytes(&proof), channel.layer_commitments().to_vec()));
+                },
+            }
+        }
+        out
+    });
+    let out = match outcome {
+        Ok(o) => o,
+        Err(p) => {
+            s.fail(panic_class("prover-reused", &p), key.clone(), format!("a reused FriProver panicked at {} ({}) in the history {key}", p.location, p.message), rp);
+            return s;
+        },
+    };
+    for (i, bytes, commitments) in out {
+        let n = match h[i] { HOp::Prove(n) | HOp::Abandon(n) => n };
+        let (c, evals, pos) = inputs(n);
+        let sh = c.shape().unwrap();
+        match prove::<B, E, H>(&c, &evals, &Pos::Explicit(pos.clone())) {
+            Err(p) => s.fail(panic_class("prover", &p), key.clone(), format!("fresh prover panicked at {} for step {i} of {key}", p.location), rp.clone()),
+            Ok(fresh) => {
+                if proof_to_bytes(&fresh.proof) != bytes || fresh.commitments != commitments {
+                    s.fail("history-dependent:proof".into(), key.clone(), format!("step {i} of {key}: the reused prover's proof or commitments differ from a fresh prover's for the same input"), rp.clone());
+                }
+            },
+        }
+        let qvals: Vec<E> = pos.iter().map(|&p| evals[p]).collect();
+        match proof_from_bytes(&bytes) {
+            Ok(Ok((dec, _))) => match verify_default::<B, E, H>(dec, commitments, sh.domain, options(&c), n - 1, &qvals, &pos) {
+                Err(p) => s.fail(panic_class("verifier", &p), key.clone(), format!("verifier panicked at {} on step {i} of {key}", p.location), rp.clone()),
+                Ok(Err(r)) => s.fail(format!("rejected:reused-prover-proof:{}", r.name()), key.clone(), format!("step {i} of {key}: proof of a reused prover rejected with {r:?}"), rp.clone()),
+                Ok(Ok(())) => {},
+            },
+            _ => s.fail("decode-failed:FriProof".into(), key.clone(), format!("step {i} of {key}: FriProof bytes of a reused prover do not decode"), rp.clone()),
+        }
+    }
+    s
+}
+
+fn dispatch_history(cfg: &Cfg, h: &[HOp]) -> Sweep {
+    dispatch!(cfg, run_history(cfg, h))
+}
+
+/// all histories up to the depth bound over the sizes valid for one option set
+fn histories(cfg: &Cfg, sizes: &[usize], depth: usize) -> Vec<Vec<HOp>> {
+    let valid: Vec<usize> = sizes.iter().copied().filter(|n| Cfg { n: *n, ..*cfg }.shape().is_ok()).collect();
+    let mut alpha: Vec<HOp> = valid.iter().map(|n| HOp::Prove(*n)).collect();
+    alpha.extend(valid.iter().map(|n| HOp::Abandon(*n)));
+    let mut out: Vec<Vec<HOp>> = vec![];
+    let mut level: Vec<Vec<HOp>> = vec![vec![]];
+    for _ in 0..depth {
+        let mut next = vec![];
+        for hst in &level {
+            for a in &alpha {
+                let mut x = hst.clone();
+                x.push(*a);
+                next.push(x);
+            }
+        }
+        // a history is a case when it ends with a proof and is longer than one operation
+        out.extend(next.iter().filter(|x| x.len() >= 2 && matches!(x.last(), Some(HOp::Prove(_)))).cloned());
+        level = next;
+    }
+    out
+}
+
 fn dispatch_unit(u: &Unit) -> (Sweep, Stats) {
     dispatch!(u.cfg, run_unit(u))
 }
@@ -326,6 +442,37 @@ pub fn run(args: &Args) {
         s.into_report(&name, note, &mut report);
     }
 
+    // ---- prover-object histories -----------------------------------------------------------
+    let hsizes: Vec<usize> = if thorough { vec![2, 4, 8, 16, 32, 64, 128] } else { vec![4, 8, 16, 32, 64] };
+    let hdepth = if thorough { 3 } else { 2 };
+    let mut hjobs: Vec<(Cfg, Vec<HOp>)> = vec![];
+    let mut hcfgs = 0;
+    for (field, ext, hasher) in [(F64, 1, BLAKE3), (F128, 2, BLAKE3), (F62, 3, RESCUE), (F64, 2, SHA3)] {
+        for &blowup in &[2usize, 4, 8] {
+            for &folding in &full.folding {
+                for &rem in &full.rem {
+                    let c = Cfg { field, ext, hasher, blowup, folding, rem, n: 8 };
+                    // the deepest histories only for the first type instantiation
+                    let d = if field == F64 && ext == 1 { hdepth } else { 2 };
+                    let hs = histories(&c, &hsizes, d);
+                    if !hs.is_empty() {
+                        hcfgs += 1;
+                    }
+                    hjobs.extend(hs.into_iter().map(|h| (c, h)));
+                }
+            }
+        }
+    }
+    let hres = mck::par_map(hjobs.len(), |i| {
+        mck::catch(|| dispatch_history(&hjobs[i].0, &hjobs[i].1)).unwrap_or_else(|p| mck::report::machinery(&format!("harness panicked at {} ({}) in history {:?}", p.location, p.message, hjobs[i].1)))
+    });
+    let mut hs = Sweep::new();
+    for r in hres {
+        hs.absorb(r);
+    }
+    hs.into_report("one FriProver instance reused across a history of Prove(n) / Abandon(n)+reset() operations", json!({"option_sets": hcfgs, "histories": hjobs.len(), "sizes": hsizes, "depth": hdepth,
+        "oracle": "every proof of a history is byte-identical to a fresh prover's proof for the same input and verifies"}), &mut report);
+
     let hashers: BTreeSet<&str> = valid.iter().map(|(c, _)| c.hasher_name()).collect();
     report.extra.insert("lattice".into(), json!({
         "points_enumerated": points.len(), "valid_points": valid.len(),
@@ -368,6 +515,16 @@ pub fn run(args: &Args) {
 }
 
 fn replay(args: &Args, v: &Value, mut report: Report) {
+    if v["kind"] == "c08-history" {
+        let Some(cfg) = Cfg::from_json(&v["cfg"]) else { mck::report::machinery("C08 history replay record needs cfg") };
+        let h: Vec<HOp> = v["history"].as_array().map(|a| a.iter().filter_map(|o| {
+            if let Some(n) = o["prove"].as_u64() { Some(HOp::Prove(n as usize)) } else { o["abandon"].as_u64().map(|n| HOp::Abandon(n as usize)) }
+        }).collect()).unwrap_or_default();
+        let s = dispatch_history(&cfg, &h);
+        s.into_report("replay", json!({"case": v}), &mut report);
+        report.rule = "replay of one recorded history".into();
+        report.finish(args)
+    }
     let parsed = (|| Some((Cfg::from_json(&v["cfg"])?, Poly::from_json(&v["poly"])?, Pos::from_json(&v["positions"])?)))();
     let Some((cfg, poly, pos)) = parsed else { mck::report::machinery("C08 replay record needs cfg, poly, positions") };
     if let Err(e) = cfg.shape() {
